@@ -39,10 +39,10 @@ def ns_push_predicate(ctx):
     for kind in KINDS:
         for script in (True, False):
             def sub(g, kind=kind, script=script):
-                m = re.fullmatch(r"\(p1\.kind == (\w+)\)", g)
+                m = re.fullmatch(r"p1\.kind matches (\w+)", g)
                 if m:
                     return m.group(1) == kind
-                if g == "(p1.name.local == atom:script)":
+                if g == "p1.name.local matches atom:script":
                     return script
                 return None
             sel = [pc for pc in nfq.feasible(pcs) if all(sub(g) is None or sub(g) == v for g, v in pc["guards"].items())]
@@ -71,7 +71,7 @@ def r16_1(ctx):
                         return m.group(1) == kind
                     if re.fullmatch(r"p2 matches (Comment|Pi|Characters|Eof|Doctype|NullCharacter|Eof\|NullCharacter).*", g):
                         return False
-                    if "name.local == atom:script" in g:
+                    if "name.local matches atom:script" in g:
                         return script
                     return None
                 sel = [pc for pc in nfq.feasible(pcs) if all(sub(g) is None or sub(g) == v for g, v in pc["guards"].items())]
